@@ -92,6 +92,11 @@ class Ash(linux_shell.LinuxShell):
             self.ch.sendline("PS2=''")
             self.ch.read_until_prompt()
 
+            # Make the tty echo control characters verbatim instead of in caret
+            # notation (^A): read-back counts one echoed byte per byte sent.
+            self.ch.sendline("stty -echoctl")
+            self.ch.read_until_prompt()
+
             # Do a sanity check to assert that shell interaction is working
             # exactly as expected
             util.shell_sanity_check(self)
